@@ -122,6 +122,9 @@ class _Selector:
         pass
 
 
+LINK_SCOPE = 2          # interface index the kernel reports as scope id for link-local IPv6 peers
+
+
 class _StableTimer(asyncio.TimerHandle):
     """Timers with equal deadlines fire in the order they were armed.  (The standard heap breaks ties by its own shape, so
     an unrelated timer of the harness could swap two library timers due at the same instant.)"""
@@ -305,7 +308,7 @@ class Host:
         if rs.family == socket.AF_INET6:
             # what a (dual-stack) IPv6 socket reports: a 4-tuple, IPv4 peers as v4-mapped addresses
             a = src if ':' in src else '::ffff:' + src
-            source: tuple = (a, port, 0, rs.scope if a.startswith('fe80') else 0)
+            source: tuple = (a, port, 0, (rs.scope or LINK_SCOPE) if a.startswith('fe80') else 0)
         else:
             source = (src, port)
         self.net._deliver(rs, data, source, tag=tag, injected=True)
@@ -453,7 +456,7 @@ class Net:
         # plan: list of delays in ms; [] = dropped; two entries = duplicated
         for delay_ms in plan:
             if rsock.family == socket.AF_INET6:
-                s = (src[0], src[1], 0, rsock.scope)
+                s = (src[0], src[1], 0, (rsock.scope or LINK_SCOPE) if str(src[0]).startswith('fe80') else 0)
             else:
                 s = src
             if delay_ms <= 0:
